@@ -109,8 +109,10 @@ def to_stiefel_polar(theta, dim:int, rank:int):
         if rank==1:
             ret = mat / torch.linalg.norm(mat, axis=1, keepdims=True)
         else:
-            tmp0 = torch.linalg.inv(numqi._torch_op.PSDMatrixSqrtm.apply(mat.transpose(1,2).conj() @ mat))
-            ret = mat @ tmp0
+            # the Gram matrix squares the condition number: single precision goes through double precision
+            mat_d = mat.to(torch.float64 if is_real else torch.complex128)
+            tmp0 = torch.linalg.inv(numqi._torch_op.PSDMatrixSqrtm.apply(mat_d.transpose(1,2).conj() @ mat_d))
+            ret = (mat_d @ tmp0).to(mat.dtype)
     else: #numpy
         if is_real:
             mat = theta.reshape(-1, dim, rank)
@@ -121,9 +123,11 @@ def to_stiefel_polar(theta, dim:int, rank:int):
             ret = mat / np.linalg.norm(mat, axis=1, keepdims=True)
         else:
             # scipy.linalg.sqrtm is slow, so we use np.linalg.eigh here
-            EVL,EVC = np.linalg.eigh(mat.transpose(0,2,1).conj() @ mat)
+            # the Gram matrix squares the condition number: single precision goes through double precision
+            mat_d = mat.astype(np.float64 if is_real else np.complex128)
+            EVL,EVC = np.linalg.eigh(mat_d.transpose(0,2,1).conj() @ mat_d)
             tmp0 = (EVC*np.sqrt(1/EVL).reshape(-1,1,rank)) @ EVC.transpose(0,2,1).conj()
-            ret = mat @ tmp0
+            ret = (mat_d @ tmp0).astype(mat.dtype)
     ret = ret.reshape(*shape[:-1], dim, rank)
     return ret
 
